@@ -2,7 +2,8 @@
 """
 C15 — introspection reports exactly the schema.
 
-* extract: `_format_default_value` is TRANSLATED statement by statement, the `_resolve_type_kind`
+* extract: `_format_default_value` is TRANSLATED statement by statement (both today's form and the form of
+  proposed_fixes/C15-I1-partial.patch, incl. its module-level escape table `_STRING_ESCAPES`), the `_resolve_type_kind`
   dispatch table and the meta-field names / branch order of `ResolutionContext.field_definition`
   are extracted, into `PyGqlModel/Generated/Introspection.lean`.
 * correspondence: the real standard introspection query (and `__type(name:)` queries) on generated
@@ -28,8 +29,8 @@ RULE = ("schemas: seeded gen/schema.py descriptions built from SDL and re-built 
 ASSUMPTIONS = [
     "type references have at most 7 wrappers (the standard query's TypeRef fragment stops at 8 levels; deeper types are truncated by the QUERY, not by the server)",
     "enum internal values are hashable and pairwise distinct (EnumType._reverse_values is a dict: the last of two equal values wins)",
-    "code-built input-object defaults list every field that has its own default (value_from_ast fills missing fields from field defaults: finding H2 of C12, not part of this statement)",
-    "deprecation reasons are non-empty (Field.deprecated = bool(reason) but EnumValue.deprecated = reason is not None: an empty reason gives isDeprecated=false with deprecationReason=\"\" on fields; reported as an observation only)",
+    "defaults are compared after the completion value_from_ast performs (absent input-object fields take the field's own default, a single value at a list type is the one-element list): that completion is coercion's business (ledger H2), not introspection's",
+    "generated deprecation reasons are non-empty; the empty reason (ledger I2: Field.deprecated = bool(reason) vs EnumValue.deprecated = reason is not None) is checked by a dedicated oracle (oracle_empty_reason) and corpus/C15/03-empty-reason.json",
     "default values are JSON-like Python values (None/bool/int/float/str/list/dict); floats travel as repr strings",
 ]
 TRUSTED = [
@@ -63,6 +64,7 @@ def translate_format_default(src):
     iv = fn.args.args[0].arg
     env = {}      # local name -> lean term
     tags = []
+    tables = []   # module-level escape tables referred to
 
     def term(e):
         if isinstance(e, ast.Name) and e.id in env:
@@ -78,6 +80,13 @@ def translate_format_default(src):
             return "(!%s)" % cond(e.operand)
         if _is_attr(e, iv, "has_default_value"):
             return "hasDefault"
+        if (isinstance(e, ast.Call) and isinstance(e.func, ast.Name) and e.func.id == "isinstance" and len(e.args) == 2
+                and isinstance(e.args[0], ast.Call) and isinstance(e.args[0].func, ast.Name)
+                and e.args[0].func.id == "unwrap_type" and len(e.args[0].args) == 1 and isinstance(e.args[1], ast.Name)):
+            kinds = {"EnumType": "enum", "InputObjectType": "input", "ScalarType": "scalar"}
+            if e.args[1].id not in kinds:
+                raise Shape("isinstance(unwrap_type(..), %s)" % e.args[1].id)
+            return "(Prims.baseIsKind s %s Kind.%s)" % (term(e.args[0].args[0]), kinds[e.args[1].id])
         if isinstance(e, ast.Call) and isinstance(e.func, ast.Name) and e.func.id == "isinstance" and len(e.args) == 2:
             cls = e.args[1]
             names = [c.id for c in cls.elts] if isinstance(cls, ast.Tuple) else [cls.id]
@@ -106,6 +115,23 @@ def translate_format_default(src):
                 and e.func.value.func.id == "str" and len(e.func.value.args) == 1):
             tags.append("strLower")
             return "some (Prims.pyStrLower %s)" % term(e.func.value.args[0])
+        # '"%s"' % "".join(TABLE.get(c, c) for c in x)
+        if isinstance(e, ast.BinOp) and isinstance(e.op, ast.Mod) and isinstance(e.left, ast.Constant) \
+                and isinstance(e.left.value, str) and e.left.value.count("%s") == 1 and e.left.value.count("%") == 1 \
+                and isinstance(e.right, ast.Call) and isinstance(e.right.func, ast.Attribute) and e.right.func.attr == "join" \
+                and isinstance(e.right.func.value, ast.Constant) and e.right.func.value.value == "" \
+                and len(e.right.args) == 1 and isinstance(e.right.args[0], ast.GeneratorExp):
+            g = e.right.args[0]
+            if not (len(g.generators) == 1 and not g.generators[0].ifs and isinstance(g.generators[0].target, ast.Name)
+                    and isinstance(g.elt, ast.Call) and isinstance(g.elt.func, ast.Attribute) and g.elt.func.attr == "get"
+                    and isinstance(g.elt.func.value, ast.Name) and len(g.elt.args) == 2
+                    and all(isinstance(a, ast.Name) and a.id == g.generators[0].target.id for a in g.elt.args)):
+                raise Shape("escaping comprehension " + ast.dump(g))
+            tables.append(g.elt.func.value.id)
+            pre, post = e.left.value.split("%s")
+            tags.append("percent-escaped:" + e.left.value)
+            return "some (%s.toList ++ Prims.escapeWith %s (Prims.pyStr %s) ++ %s.toList)" % (
+                json.dumps(pre), "table_" + g.elt.func.value.id, term(g.generators[0].iter), json.dumps(post))
         # '"%s"' % x
         if isinstance(e, ast.BinOp) and isinstance(e.op, ast.Mod) and isinstance(e.left, ast.Constant) \
                 and isinstance(e.left.value, str) and e.left.value.count("%s") == 1 and e.left.value.count("%") == 1:
@@ -149,7 +175,19 @@ def translate_format_default(src):
         raise Shape("statement " + type(s).__name__)
 
     body = block(fn.body, None)
-    lean = ("/-- `_format_default_value`, translated statement by statement. `s` is the schema (only the\n"
+    pre = ""
+    tree = ast.parse(src)
+    for tname in dict.fromkeys(tables):
+        val = None
+        for n in tree.body:
+            if isinstance(n, ast.Assign) and len(n.targets) == 1 and isinstance(n.targets[0], ast.Name) and n.targets[0].id == tname:
+                val = ast.literal_eval(n.value)
+        if not (isinstance(val, dict) and all(isinstance(k, str) and len(k) == 1 and isinstance(v, str) for k, v in val.items())):
+            raise Shape("escape table %s is not a {char: str} literal" % tname)
+        pre += ("/-- module-level table `%s` (code points) -/\ndef table_%s : List (Char × Chars) := [%s]\n\n" % (
+            tname, tname, ", ".join("(Char.ofNat %d, [%s])" % (ord(k), ", ".join("Char.ofNat %d" % ord(c) for c in v))
+                                    for k, v in val.items())))
+    lean = (pre + "/-- `_format_default_value`, translated statement by statement. `s` is the schema (only the\n"
             "    `print_ast(ast_node_from_value(..))` form looks at it), `hasDefault`/`dv`/`ty` are the attributes of the input value. -/\n"
             "def formatDefaultValue (s : SchemaD) (hasDefault : Bool) (dv : J) (ty : Ty) : Option Chars :=\n  %s\n" % body)
     return lean, tags
@@ -573,8 +611,43 @@ def strip_err(r):
 # run / replay
 # ---------------------------------------------------------------------------
 
+EMPTY_REASON_SDL = ('enum E { A @deprecated(reason: "") B }\n'
+                    'type Query { a: Int @deprecated(reason: "") b: Int e: E }')
+
+
+def oracle_empty_reason(ctx):
+    """Ledger I2. A member whose deprecation reason is SET to the empty string is deprecated (types.py documents
+    `deprecated: True if deprecation_reason is set` for fields and enum values alike; the SDL says `@deprecated`):
+    it must be reported with isDeprecated = true, its reason "", and hidden unless requested."""
+    from py_gql import build_schema
+    from py_gql.schema import EnumType, EnumValue, Field, Int, ObjectType, Schema
+    q = ('{ q: __type(name: "Query") { fields { name } all: fields(includeDeprecated: true) { name isDeprecated deprecationReason } } '
+         'e: __type(name: "E") { enumValues { name } all: enumValues(includeDeprecated: true) { name isDeprecated deprecationReason } } }')
+    e = EnumType("E", [EnumValue("A", deprecation_reason=""), EnumValue("B")])
+    code = Schema(ObjectType("Query", [Field("a", Int, deprecation_reason=""), Field("b", Int), Field("e", e)]))
+    for how, schema in (("sdl", build_schema(EMPTY_REASON_SDL)), ("code", code)):
+        ctx.count()
+        st, r = L.execute(schema, q, "blocking")
+        if st != "ok" or r.get("errors"):
+            ctx.fail("deprecated-flag:empty-reason:raises", "introspection of a member deprecated with an empty reason fails",
+                     {"check": "empty-reason", "how": how})
+            continue
+        d = r["data"]
+        for what, key, vis, allm in (("field", "a", d["q"]["fields"], d["q"]["all"]), ("enum-value", "A", d["e"]["enumValues"], d["e"]["all"])):
+            m = [x for x in allm if x["name"] == key]
+            ok = (len(m) == 1 and m[0]["isDeprecated"] is True and m[0]["deprecationReason"] == ""
+                  and key not in [x["name"] for x in vis])
+            ctx.nontrivial(("empty-reason", how, what))
+            if not ok:
+                ctx.fail("deprecated-flag:empty-reason:" + what,
+                         "a %s deprecated with the empty reason is reported as %r and is %s without includeDeprecated"
+                         % (what, m[0] if m else None, "listed" if key in [x["name"] for x in vis] else "hidden"),
+                         {"check": "empty-reason", "how": how, "member": what})
+
+
 def run(ctx):
     try:
+        oracle_empty_reason(ctx)
         _run(ctx)
     finally:
         L.shutdown()
@@ -602,6 +675,10 @@ def _run(ctx):
 
 def replay(ctx, data):
     inp = data.get("input", {})
+    if inp.get("check") == "empty-reason":
+        sub = Ctx2(ctx)
+        oracle_empty_reason(sub)
+        return not any(f["signature"] == data.get("signature") for f in sub.found)
     case = inp.get("case")
     if not case:
         return True
